@@ -7,26 +7,42 @@ CHECK = {
          'GetBlocksBetweenHeight and the three sync RPC handlers; (b) 2-12 goroutines on one certificate.Pool (Add/duplicate Add/Has/Get/Select/'
          'Upgrade/Cleanup/Size); (c) 1-6 publishers, 1-6 subscription managers with live drainers on one EventEmitter (Publish/Subscribe/Unsubscribe/'
          'UnsubscribeAll/Close); (d) 2-10 sibling WithPrefix views of one diffdb staged store (Get/Has/Set/Del/Range/Iterate/Snapshot/RestoreSnapshot, '
-         'exact and free-running mode); (e) [thorough] block sync of a node with 3-6 responding peers while readers use the chain and Syncing(). '
+         'exact and free-running mode); (e) [thorough] block sync of a node with 3-6 responding peers while readers use the chain and Syncing(); '
+         '(f) published-means-committed: one writer adding/removing blocks (bursts 1-10 deep, or adding only) directly on a real Chain over pebble '
+         '(in-memory FS, WAL sync latency 0/100/500 us, block cache 2/4/8/64, 1-16 transactions and 1-30 events per block, event pruning on/off, '
+         '150-600 operations, thorough up to 1500) against 4-12 readers at GOMAXPROCS 4/8/16 which take the tip (LastBlock/GetLastBlock) and at once '
+         'look up what it promises: every transaction by id (single and bulk), events by height, header/block by id and by height, the range below '
+         'it, the persisted last header (height index of the database) and a key written in the same batch. The same oracle runs inside (a) on every '
+         'LastBlock/GetLastBlock/getLastBlock answer (plus the state diff of the block), and 0-2 live subscribers of EventBlockNew/EventBlockDelete '
+         'check that an announced block is readable and on the chain and a deleted one is gone. '
          'GOMAXPROCS 2/4/8/16 and yield injection (Gosched / microsecond sleeps) are drawn per goroutine. Non-trivial = (a) >= 4 readers, >= 200 writer '
          'operations and >= 1000 bulk lookups in one run; (b)/(d) >= 4 goroutines and >= 2000 operations; (c) >= 4 goroutines, >= 500 deliveries and '
-         '>= 4 unsubscribes; (e) at least one sync converged. Distinct by digest of the workload.',
+         '>= 4 unsubscribes; (e) at least one sync converged; (f) >= 4 readers, >= 100 writer operations, >= 1000 tip observations and >= 20 tip reads '
+         'taken while the writer was inside AddBlock/RemoveBlock. Distinct by digest of the workload.',
  'level_text': 'Race detector plus timing-robust functional oracles on generated concurrent workloads against the real objects: no race report touching '
-               'pkg/; every tip a reader obtains is byte-identical to a block the writer built (ID = hash of header, payload matches root); bulk lookups '
+               'pkg/; every tip a reader obtains is byte-identical to a block the writer built (ID = hash of header, payload matches root) and is committed: '
+               'unless the writer had begun to remove that very block before the lookups ended, its transactions, events, height index entry, persisted '
+               'last header and same-batch state are readable with exactly its content (the writer flags a block before it removes it and never reuses an ID, '
+               'so the exemption cannot hide a tip published before its batch was written), and once its data is gone the tip API must not answer it again; '
+               'EventBlockNew implies the block is readable and on the chain, EventBlockDelete that it is gone; bulk lookups '
                'over stable items return each requested item exactly once; pool/emitter/store invariants that hold under every interleaving; a hang is '
                'reported only with a goroutine dump proving a lock cycle.',
  'level_note': 'The seed fixes the workload (goroutine counts, operation mix, sizes, yield injection), not the Go scheduler: a race or lock cycle is found '
                'only if the run happens to execute it, and a found one may not reproduce from its seed (the report text / goroutine dump is the '
                'reproduction). Wall-clock budget hits are recorded as inconclusive. While findings are listed as known their triggers are removed from '
-               'the generated mixes (tip reads, the three bulk lookups, emptying the block cache, getBlocksFromId on the moving tip).',
- 'technique': 'property-based stress testing (rapid-drawn concurrent workloads) under the Go race detector with invariant / multiset / model oracles',
+               'the generated mixes (tip reads, the three bulk lookups, emptying the block cache, getBlocksFromId on the moving tip, the remove-path half of the '
+               'published-means-committed oracle). The ordering oracles see a too-early publication only if a reader runs inside the window; measured hit rate '
+               'for AddBlock publishing before writing: 30-250 violating observations per case, every case.',
+ 'technique': 'property-based stress testing (rapid-drawn concurrent workloads) under the Go race detector with invariant / multiset / model / publication-order oracles',
  'assumptions': ['fake deterministic application (harness/node)', 'loopback networking for the started p2p connection',
                  'race reports without a frame of github.com/LiskHQ/lisk-engine/pkg/ are noted, not judged',
                  'blocks of the churn zone that are not tips are checked for completeness as an observation only (the statement names tips)'],
- 'quick': [{'pkg': 'c20', 'race': True, 'run': 'TestChainReadersWriter', 'checks': 4, 'timeout': 1500, 'shrinktime': '15s', 'gomaxprocs': 4},
+ 'quick': [{'pkg': 'c20', 'race': True, 'run': 'TestChainReadersWriter', 'checks': 2, 'shards': 2, 'timeout': 1500, 'shrinktime': '15s', 'gomaxprocs': 4},
+           {'pkg': 'c20', 'race': True, 'run': 'TestTipIsCommitted', 'checks': 6, 'timeout': 1500, 'shrinktime': '15s', 'gomaxprocs': 4},
            {'pkg': 'c20', 'race': True, 'run': 'TestCertificatePool|TestEventEmitter|TestStagedStoreViews', 'checks': 10, 'timeout': 1500, 'shrinktime': '15s', 'gomaxprocs': 4},
            {'pkg': 'c20', 'race': True, 'run': 'TestRegress', 'timeout': 1500, 'gomaxprocs': 4}],
  'thorough': [{'pkg': 'c20', 'race': True, 'run': 'TestChainReadersWriter', 'checks': 30, 'shards': 4, 'timeout': 3000, 'shrinktime': '30s', 'gomaxprocs': 2},
+              {'pkg': 'c20', 'race': True, 'run': 'TestTipIsCommitted', 'checks': 40, 'shards': 2, 'timeout': 3000, 'shrinktime': '30s', 'gomaxprocs': 2},
               {'pkg': 'c20', 'race': True, 'run': 'TestCertificatePool|TestEventEmitter|TestStagedStoreViews', 'checks': 25, 'shards': 2, 'timeout': 3000, 'shrinktime': '30s', 'gomaxprocs': 2},
               {'pkg': 'c20', 'race': True, 'run': 'TestBlockSyncPolling', 'checks': 12, 'shards': 2, 'timeout': 3000, 'shrinktime': '30s', 'gomaxprocs': 2},
               {'pkg': 'c20', 'race': True, 'run': 'TestRegress', 'timeout': 1500, 'gomaxprocs': 2}],
